@@ -15,8 +15,14 @@
 #define	RETURN(_code)	do {						\
 		asn_dec_rval_t rval;					\
 		rval.code = _code;					\
-		if(opt_ctx) opt_ctx->step = step; /* Save context */	\
-		if(_code == RC_OK || opt_ctx)				\
+		/*							\
+		 * RC_WMORE: the tags seen so far are not consumed and	\
+		 * will be presented again. The outer lengths they	\
+		 * have established are not part of the saved context.	\
+		 */							\
+		if(opt_ctx && _code != RC_WMORE)			\
+			opt_ctx->step = step;	/* Save context */	\
+		if(_code == RC_OK || (opt_ctx && _code != RC_WMORE))	\
 			rval.consumed = consumed_myself;		\
 		else							\
 			rval.consumed = 0;	/* Context-free */	\
